@@ -445,6 +445,15 @@ def compare(fr, op, l, r, node):
                 hit = False
             if hit or not r:
                 return hit if isinstance(op, ast.In) else not hit
+            if len(r) <= 16 and not isinstance(l, (AOpq, ABits, list, dict)):
+                # a symbolic key against the few keys stored so far on this path: decided key by key (a linear predicate splits the trace)
+                for k in list(r):
+                    if isinstance(k, AOpq):
+                        break
+                    if I.decide(compare(fr, ast.Eq(), l, k, node), f"in-dict:{node.lineno}"):
+                        return isinstance(op, ast.In)
+                else:
+                    return not isinstance(op, ast.In)
         if isinstance(r, (bytes, str)) and not is_abs(l):
             return (l in r) if isinstance(op, ast.In) else (l not in r)
         if isinstance(r, AOpq) or isinstance(l, AOpq):
@@ -455,7 +464,7 @@ def compare(fr, op, l, r, node):
             if not isinstance(r2, AFin):
                 return compare(fr, op, l, r2, node)
             raise NeedCases(sorted(set(r2.atoms) | (set(I.simp_fin(l).atoms) if isinstance(I.simp_fin(l), AFin) else set())))
-        raise Abort(f"membership test in {type(r).__name__}")
+        raise Abort(f"membership test in {type(r).__name__} l={l!r} keys={list(r)[:3] if isinstance(r, dict) else None} n={len(r) if isinstance(r, dict) else 0}")
     if isinstance(op, (ast.Is, ast.IsNot)):
         same = (l is r) or (l is None and r is None) or (isinstance(l, bool) and isinstance(r, bool) and l == r) \
             or (isinstance(l, EnumMember) and l == r)
@@ -658,6 +667,20 @@ def eq(fr, l, r, node):
         return False
 
 
+class NPDType:
+    """dtype of a folded constant integer table: numpy's default integer type on the platforms the library runs on"""
+    str = "<i8"
+    name = "int64"
+    itemsize = 8
+    kind = "i"
+
+    def __eq__(self, o):
+        return isinstance(o, NPDType)
+
+    def __hash__(self):
+        return hash("NPDType")
+
+
 # ------------------------------------------------------------------------------------------------ attributes
 
 
@@ -810,7 +833,17 @@ def getattr_(fr, base, attr, node):
             return base.T
         if attr == "shape":
             return base.shape
+        if attr == "ndim":
+            return base.ndim
+        if attr == "size":
+            return len(base.data) * (len(base.data[0]) if base.ndim == 2 else 1)
+        if attr == "dtype":
+            return NPDType()
         return AFn(base, attr)
+    if isinstance(base, NPDType):
+        if attr in ("str", "name", "itemsize", "kind"):
+            return getattr(base, attr)
+        raise Abort(f"numpy dtype attribute {attr}")
     if isinstance(base, (dict, list, tuple, bytes, bytearray, str, int, BitArr, set)):
         return AFn(base, attr)
     if base is None:
@@ -1727,6 +1760,20 @@ def method(fr, base, name, args, kw, n):
         if isinstance(base, NPArr):
             if name == "tolist":
                 return base.tolist()
+            flat = [x for r in base.data for x in r] if base.ndim == 2 else list(base.data)
+            if name == "tobytes" and not args and all(isinstance(x, int) and not isinstance(x, bool) for x in flat):
+                # constant integer tables are numpy's default integer type (int64, little endian) — see NPDType
+                return b"".join(int(x).to_bytes(8, "little", signed=True) for x in flat)
+            if name in ("copy", "astype", "view"):
+                return NPArr([list(r) for r in base.data] if base.ndim == 2 else list(base.data))
+            if name in ("flatten", "ravel"):
+                return NPArr(flat)
+            if name == "sum" and not args and not kw:
+                return sum(flat)
+            if name in ("any", "all") and not args and not kw:
+                return (any if name == "any" else all)(bool(x) for x in flat)
+            if name == "transpose" and not args:
+                return base.T
             raise Abort(f"ndarray const method {name}")
         if isinstance(base, BitArr):
             return bits_method(fr, ABits([cbit(x) for x in base], "ba"), name, args, kw, n)
@@ -1781,6 +1828,14 @@ def subscript_dict_abs(fr, d, key, n):
             if isinstance(k, EnumMember) and I.decide(eq(fr, key, k, n), f"dictget:{n.lineno}"):
                 return d[k]
         raise PathRaise("KeyError", "enum key")
+    for k in d:
+        if k is key:
+            return d[k]
+    if len(d) <= 16 and not isinstance(key, (AOpq, ABits, list, dict)) and not any(isinstance(k, AOpq) for k in d):
+        for k in list(d):
+            if I.decide(compare(fr, ast.Eq(), key, k, n), f"dictget:{n.lineno}"):
+                return d[k]
+        raise PathRaise("KeyError", "symbolic key equal to none of the stored keys")
     raise Abort("abstract dict key")
 
 
@@ -1917,6 +1972,10 @@ def external(fr, name, args, kw, n):
         if isinstance(v, str):
             return ABits([cbit(int(c)) for c in v], "ba", endian)
         if isinstance(v, AInt) or isinstance(v, int) and not isinstance(v, bool):
+            nbits = v if isinstance(v, int) else const_of(fr, v)
+            if isinstance(nbits, int) and 0 <= nbits <= 4096:
+                # bitarray(n): n bits of unspecified content — opaque bits until they are overwritten (setall / item stores)
+                return ABits([OB("bitarray(n): uninitialised bit") for _ in range(nbits)], "ba", endian)
             return I.opaque("bitarray(n): uninitialised bits")
         if isinstance(v, AOpq):
             return v
